@@ -301,10 +301,11 @@ class Explorer:
             return
         self.pc.append(cond)
 
-    def instance(self, fml):
-        """register a quantifier-free INSTANCE of a quantified hypothesis already assumed on this path (the caller builds it with
-        the same formula builder as the quantified hypothesis, so it is an instance by construction)"""
-        if has_quantifier(fml):
+    def instance(self, fml, quantified_atoms=False):
+        """register an INSTANCE of a quantified hypothesis already assumed on this path (the caller builds it with the same formula
+        builder as the quantified hypothesis, so it is an instance by construction). Instances are quantifier-free, unless the caller
+        states that remaining quantified sub-formulas are meant as opaque atoms (they recur verbatim in the goal)."""
+        if has_quantifier(fml) and not quantified_atoms:
             raise Unsupported("instance() of a quantified formula")
         self.insts.append(fml)
 
